@@ -68,6 +68,14 @@ def cases(tier, rng):
         for prog in ("Ė", "?Ė", "E", "†", "ĖĖ", "?:ĖĖ", "wvĖ", "λĖ;†", "?S Ė", "Ė,"):
             out.append((prog, "", [t], True))
             out.append((prog, "D", [t], True))
+    # tainted text as a function NAME (defined with the name written as a string, called by its cleaned name),
+    # in the program and handed to Vyxal-exec as input
+    import re
+    for t in TAINTS[:8] + ["f if 0 else 0;" + TAINTS[0], "x=" + TAINTS[0] + "#", "a\n" + TAINTS[0]]:
+        clean = re.sub("[^A-Za-z0-9_]", "", t)
+        for prog in ("@`" + t + "`|7;@" + clean + ";", "@`" + t + "`:1|7;3@" + clean + ";", "λ@`" + t + "`|7;@" + clean + ";;†"):
+            out.append((prog, "", [], True))
+            out.append(("Ė", "", ["`" + prog.replace("`", "\\`") + "`"], True))
     # inputs that are valid Python literals but no Vyxal values, and malformed ones: kept as strings, never an error
     odd = ["None", "...", "1e999", "-1e999", "b'x'", "1j", "True", "(1, 2)", "{1: 2}", "{1, 2}", "[None, 'x']", "[1, None]",
            "{'a': None}", "[[...]]", "1_000", "0x10", "0o7", "''", "[", "]", "\\", "'", "\"", "1e", "--1", "[1,", "nan", "inf",
